@@ -317,3 +317,11 @@ Proof.
   - rewrite firstn_length, skipn_length. lia.
   - apply slice16_block16; assumption.
 Qed.
+
+(* the cipher.Block of sm4.go, on 16-byte keys and blocks, is the specification's pair of functions *)
+Lemma go_cipher_is_spec key blk : block16 key -> block16 blk ->
+  go_encrypt key blk = sm4_encrypt_block key blk /\ go_decrypt key blk = sm4_decrypt_block key blk.
+Proof.
+  intros [Hk1 Hk2] Hb. unfold go_encrypt, go_decrypt. rewrite (NewCipher_spec key Hk1 Hk2). cbn [obind].
+  rewrite Encrypt_spec, Decrypt_spec by (try reflexivity; exact Hb). split; reflexivity.
+Qed.
